@@ -126,6 +126,31 @@ func init() {
 			Cases []rtCase `json:"cases"`
 		}
 		loadCases(args, &cs)
+		// decoded values are kept and compared AGAIN after all documents were decoded: a decoded parameter set is a value and must not
+		// change when later documents are decoded in the same process
+		type kept struct {
+			id   string
+			ins  *prover.InsertionParameters
+			del  *prover.DeletionParameters
+			js   string
+			item rtCase
+		}
+		var keep []kept
+		defer func() {
+			for _, k := range keep {
+				var again []byte
+				if k.ins != nil {
+					again, _ = json.Marshal(k.ins)
+				} else {
+					again, _ = json.Marshal(k.del)
+				}
+				if string(again) != k.js {
+					emit(Result{ID: k.id + "/later", OK: false, Kind: "roundtrip", Detail: "a decoded parameter set changed after later documents were decoded in the same process: it now encodes as " + string(again) + ", it was decoded from " + k.js,
+						Case: map[string]interface{}{"cases": cs.Cases}})
+					return
+				}
+			}
+		}()
 		for i, c := range cs.Cases {
 			r := Result{ID: fmt.Sprintf("rt%d/%s", i, c.Mode), OK: true, Kind: "roundtrip"}
 			proofs := make([][]big.Int, len(c.Proofs))
@@ -140,6 +165,9 @@ func init() {
 				var q prover.InsertionParameters
 				if err == nil {
 					err = json.Unmarshal(js, &q)
+					if err == nil {
+						keep = append(keep, kept{id: r.ID, ins: &q, js: string(js), item: c})
+					}
 				}
 				if err != nil {
 					r.OK, r.Detail = false, "round trip fails: "+err.Error()
@@ -162,6 +190,9 @@ func init() {
 				var q prover.DeletionParameters
 				if err == nil {
 					err = json.Unmarshal(js, &q)
+					if err == nil {
+						keep = append(keep, kept{id: r.ID, del: &q, js: string(js), item: c})
+					}
 				}
 				if err != nil {
 					r.OK, r.Detail = false, "round trip fails: "+err.Error()
